@@ -32,7 +32,9 @@ FUNCTIONS = [
     'pymap.message:BaseLoadedMessage._get_subpart',
     'pymap.fetch:DynamicLoadedFetchValue._get_partial', 'pymap.fetch:DynamicLoadedFetchValue._get_data',
     'pymap.parsing.primitives:LiteralString._prefix', 'pymap.parsing.primitives:LiteralString.write',
-    'pymap.backend.dict.mailbox:Message.copy',
+    'pymap.backend.dict.mailbox:Message.copy', 'pymap.backend.dict.mailbox:MailboxData.append',
+    'pymap.backend.dict.mailbox:MailboxData.copy', 'pymap.backend.dict.mailbox:_ContentCache.add',
+    'pymap.bytes:HashStream.digest',
 ]
 ASSUMPTIONS = [
     'message length <= the stated bound (longer messages, in particular 64 KiB, are outside the claim)',
@@ -41,7 +43,8 @@ ASSUMPTIONS = [
     'the multipart harness gives the Content-Type header concretely',
     'base64 pair in MessageHeader._to_str/_to_bytes is an exact opaque inverse pair',
 ]
-STUBS = ['base64.b64encode/b64decode on symbolic names: opaque token with exact inverse',
+STUBS = ['zlib.adler32: exact arithmetic model over symbolic bytes',
+         'base64.b64encode/b64decode on symbolic names: opaque token with exact inverse',
          'io.BytesIO: chunk list (Writeable.tobytes)']
 OUTSIDE = ['maildir MaildirMessage re-serialisation (stdlib email)',
            'content-transfer decoding for BINARY[]', 'lengths above the bound',
@@ -59,7 +62,8 @@ def setup() -> None:
     from pymap.fetch import DynamicLoadedFetchValue
     from pymap.parsing.primitives import LiteralString
     from pymap.parsing.specials.fetchattr import FetchPartial, FetchRequirement
-    from pymap.backend.dict.mailbox import Message
+    from pymap.backend.dict.mailbox import Message, MailboxSet
+    from pymap.parsing.message import AppendMessage
     _g.update(locals())
 
 
@@ -171,6 +175,37 @@ def _h_multipart(shape):
     return fn
 
 
+def _h_append_two(n1, n2):
+    """APPEND two messages to the real dict mailbox (content cache keyed by
+    a checksum, thread cache), then each message still returns its own bytes"""
+    def fn(eng):
+        from pysymex import fresh_bytes, B, AND, Outcome
+        from checks import _sim
+        b1 = fresh_bytes(eng, 'x', n1)
+        b2 = fresh_bytes(eng, 'y', n2)
+        for c in b1.items + b2.items:
+            # one MIME shape (no whitespace, no colon): this harness is about which stored object
+            # a message gets, not about line splitting (covered above for all bytes)
+            eng.add((c.t >= 0x21) & (c.t <= 0x7e) & (c.t != 0x3a))
+        ms = _g['MailboxSet']()
+        mbx = ms._inbox
+        AM = _g['AppendMessage']
+        m1 = _sim.run_coro(mbx.append(AM(b1, None, frozenset())))
+        m2 = _sim.run_coro(mbx.append(AM(b2, None, frozenset())))
+        other = _sim.run_coro(ms.add_mailbox('O'))
+        dest = _sim.run_coro(ms.get_mailbox('O'))
+        cu = _sim.run_coro(mbx.copy(m2.uid, dest))
+        mc = dest._messages[cu]
+        props = []
+        for m, b in ((m1, b1), (m2, b2), (mc, b2)):
+            loaded = _sim.run_coro(m.load_content(_g['FetchRequirement'].CONTENT))
+            props.append(B(bytes_(loaded.get_body(None)) == b))
+            props.append(loaded.get_size() == len(b))
+        return Outcome(AND(*props), witness=lambda mdl: {
+            'b1': b1.eval(mdl).hex(), 'b2': b2.eval(mdl).hex()})
+    return fn
+
+
 def harnesses(tier):
     from pysymex.runner import Harness
     hs = []
@@ -186,6 +221,9 @@ def harnesses(tier):
                           replay='parse_fetch'))
     shapes = [[[1]], [[2], [1]], [[1, 1]]] if tier == 'quick' else \
         [[[1]], [[2], [1]], [[1, 1]], [[2, 2], [2]], [[1], [1], [1]], [[3], [3]]]
+    for n1, n2 in ([(3, 3), (4, 4)] if tier == 'quick' else [(3, 3), (4, 4), (5, 5), (3, 6), (8, 8)]):
+        hs.append(Harness('append_two[len=%d,%d]' % (n1, n2), _h_append_two(n1, n2), {'len1': n1, 'len2': n2, 'bytes': '0x21..0x7e except colon'},
+                          replay='append_two', task_budget=60))
     for sh in shapes:
         hs.append(Harness('multipart%s' % sh, _h_multipart(sh), {'parts': sh},
                           replay='multipart'))
@@ -230,10 +268,28 @@ def _observe(data: bytes, o=None, n=None):
 
 
 def replay(harness, w):
-    data = bytes.fromhex(w['data'])
+    data = bytes.fromhex(w.get('data', ''))
     from pymap.mime import MessageContent
     from pymap.mime._util import get_raw
     bad = []
+    if harness.startswith('append_two'):
+        from checks import _sim
+        from pymap.backend.dict.mailbox import MailboxSet
+        from pymap.parsing.message import AppendMessage
+        from pymap.parsing.specials.fetchattr import FetchRequirement
+        b1, b2 = bytes.fromhex(w['b1']), bytes.fromhex(w['b2'])
+        ms = MailboxSet()
+        mbx = ms._inbox
+        m1 = _sim.run_coro(mbx.append(AppendMessage(b1, None, frozenset())))
+        m2 = _sim.run_coro(mbx.append(AppendMessage(b2, None, frozenset())))
+        _sim.run_coro(ms.add_mailbox('O'))
+        dest = _sim.run_coro(ms.get_mailbox('O'))
+        mc = dest._messages[_sim.run_coro(mbx.copy(m2.uid, dest))]
+        for m, b in ((m1, b1), (m2, b2), (mc, b2)):
+            loaded = _sim.run_coro(m.load_content(FetchRequirement.CONTENT))
+            if bytes(loaded.get_body(None)) != b or loaded.get_size() != len(b):
+                bad.append('stored %r, BODY[] returns %r' % (b, bytes(loaded.get_body(None))))
+        return {'violates': bool(bad), 'detail': bad[:3]}
     if harness.startswith('lines_kernel'):
         view = memoryview(data)
         lines = MessageContent._find_lines(data)
